@@ -10,6 +10,7 @@
 -/
 import AJ.Model.Run
 import AJ.Model.Lax
+import AJ.Model.Why
 import AJ.Model.Full
 import AJ.Model.Flat
 namespace AJ.Dyn
@@ -265,7 +266,11 @@ def pcTag : PcB → String
 def bcTag : Bc → String
   | .bnone => "" | .bwait w => "/w" ++ whoTag w | .btidy w => "/t" ++ whoTag w | .bover => "/o"
 
-def replayB (c : Cfg) (evs : List ObsB) (diag : List (Nat × Bool × Bool)) : String := Id.run do
+/-- the token the harness derives from the string `why()` returns -/
+def whyTag : Why → String
+  | .fine => "F" | .critical => "C" | .timedOut (some n) => s!"T{n}" | .timedOut none => "TN"
+
+def replayB (c : Cfg) (evs : List ObsB) (diag : List (Nat × Bool × Bool × String)) : String := Id.run do
   let mut st := StB.init
   let mut i := 0
   let mut diffs : Array String := #[]
@@ -385,18 +390,23 @@ def replayB (c : Cfg) (evs : List ObsB) (diag : List (Nat × Bool × Bool)) : St
       st := st2
     i := i + 1
   -- diagnosis after the run: failed_time_out() / failed_critical() of every scheduler that ended
-  for (s, ft, fc) in diag do
+  for (s, ft, fc, w) in diag do
     if st.pcB s == .over && (st.failT s != ft || st.failC s != fc) then
       diffs := diffs.push s!"{i} diag scheduler {s} observed=({ft},{fc}) model=({st.failT s},{st.failC s})"
+    -- … and `why()` (Model/Why.lean); "-" = not observed
+    if st.pcB s == .over && w != "-" && whyTag (st.why c s) != w then
+      diffs := diffs.push s!"{i} diag scheduler {s} why observed={w} model={whyTag (st.why c s)}"
+    if st.pcB s == .over && w != "-" then cov := cov.push s!"why:{(whyTag (st.why c s)).take 1}"
   let covs := ",".intercalate cov.toList
   if diffs.isEmpty then return s!"ok {i} cov={covs}"
   return s!"diff {i} | " ++ " | ".intercalate diffs.toList
 
-def parseDiag (s : String) : Option (List (Nat × Bool × Bool)) :=
+def parseDiag (s : String) : Option (List (Nat × Bool × Bool × String)) :=
   if s.isEmpty || s = "-" then some [] else
   (s.splitOn ",").mapM fun e =>
     match e.splitOn ":" with
-    | [k, a, b] => do pure (← k.toNat?, a = "1", b = "1")
+    | [k, a, b] => do pure (← k.toNat?, a = "1", b = "1", "-")
+    | [k, a, b, w] => do pure (← k.toNat?, a = "1", b = "1", w)
     | _ => none
 
 def isDynCmd (cmd : String) : Bool := cmd = "replayA" || cmd = "replayB" || cmd = "flatreq" || cmd = "timing"
